@@ -47,6 +47,33 @@ def select_specs() -> list[Spec]:
     ]
 
 
+def vars_specs() -> list[Spec]:
+    m = "models.py"
+    ZT = "Z"
+    C = "C"     # abstract type of a declared choice
+    return [
+        Spec("gen_cont_correct", m, "ContinuousVariable", "correct",
+             [("self.lower_bound", "lower_bound", X), ("self.upper_bound", "upper_bound", X), ("value", "value", X)], X),
+        Spec("gen_cont_validate", m, "ContinuousVariable", "validate_bounds",
+             [("self.lower_bound", "lower_bound", X), ("self.upper_bound", "upper_bound", X)], "unit", fallible=True,
+             attrs={"self_value": ("tt", "unit")}),
+        Spec("gen_disc_get_bounds", m, "DiscreteVariable", "get_bounds", [("self.choices", "choices", LIST(C))], TUP(ZT, ZT),
+             attrs={"len_as_Z": True}),
+        Spec("gen_disc_correct", m, "DiscreteVariable", "correct",
+             [("self.choices", "choices", LIST(C)), ("value", "value", X)], ZT, fallible=True, attrs={"len_as_Z": True}),
+        Spec("gen_disc_decode", m, "DiscreteVariable", "decode",
+             [("self.choices", "choices", LIST(C)), ("value", "value", X)], C, fallible=True, attrs={"len_as_Z": True}),
+        Spec("gen_perm_correct", m, "PermutationVariable", "correct",
+             [("value", "value", LIST(X)), ("pi!", "pi", LIST(NAT))], LIST(NAT), attrs={"argsort_of": ("value", "pi")}),
+        Spec("gen_perm_decode", m, "PermutationVariable", "decode",
+             [("value", "value", LIST(X)), ("pi!", "pi", LIST(NAT))], LIST("L"),
+             attrs={"argsort_of": ("value", "pi"),
+                    "calls": {"self._label_encoder.inverse_transform": lambda a: (f"(inverse_transform {a[0][0]})", LIST("L"))}}),
+        Spec("gen_binary_validate", m, "BinaryVariable", "validate_n_vars", [("v", "v", ZT)], ZT, fallible=True,
+             attrs={"len_as_Z": True}, skip_params=("self", "cls")),
+    ]
+
+
 def emit_group(repo: Path, fname: str, imports: str, section_vars: str, specs: list[Spec], status: dict,
                extra: str = "") -> None:
     tr = Translator(repo, specs)
@@ -75,6 +102,9 @@ def regenerate(repo: Path) -> dict:
     emit_group(repo, "GenSelect.v", imports,
                "Variable A : Type.\nVariable cost : A -> xnum.\nVariable copy : A -> A.\n"
                "Variable pool_perm : list A -> list A.\n", select_specs(), status)
+    emit_group(repo, "GenVars.v", "From Coq Require Import List ZArith Bool Arith.\nFrom PV Require Import Xnum Select PyLib Argsort.\n"
+               "Import ListNotations.\n",
+               "Variable C : Type.\nVariable L : Type.\nVariable inverse_transform : list nat -> list L.\n", vars_specs(), status)
     from . import regen_more
     regen_more.regenerate(repo, status)
     coq.write_if_changed(GEN / "status.json", json.dumps(status, indent=1, sort_keys=True))
